@@ -2,7 +2,7 @@
    injectivity of the tag spellings, version-string parsers. *)
 From Coq Require Import List Arith NArith Bool Lia FinFun Sorted.
 Import ListNotations.
-Require Import Elf ElfFile VParse VDec Tags TagsLit TagsModel TagsProofs PlatLit PlatModel.
+Require Import Elf ElfFile ElfProofs VParse VDec Tags TagsLit TagsModel TagsProofs PlatLit PlatModel.
 Open Scope N_scope.
 Arguments N.eqb : simpl never.
 Arguments N.leb : simpl never.
@@ -635,3 +635,25 @@ Proof.
   destruct (streq_spec a s_arm64) as [->|N5]; [exfalso; apply H; cbn; auto 10|].
   destruct (streq_spec a s_intel) as [->|N6]; [exfalso; apply H; cbn; auto 10|]. reflexivity.
 Qed.
+
+(* ---------------------------------------------------------------- the policy module kinds; the ABI probes on an encoded image *)
+Lemma policy_kinds arch M m :
+  policy None arch M m = true /\
+  (forall f a1 a2 a3, policy (Some {| p_func := Some f; p_1 := a1; p_2010 := a2; p_2014 := a3 |}) arch M m =
+                      match f M m arch with FNone => true | FBool b => b end) /\
+  (forall a1 a2 a3, policy (Some {| p_func := None; p_1 := a1; p_2010 := a2; p_2014 := a3 |}) arch M m =
+                    if (M =? 2)%nat && (m =? 5)%nat then attr_or_true a1
+                    else if (M =? 2)%nat && (m =? 12)%nat then attr_or_true a2
+                    else if (M =? 2)%nat && (m =? 17)%nat then attr_or_true a3 else true).
+Proof. repeat split. Qed.
+Lemma abi_probe_encoded s : wf_spec s ->
+  is_linux_armhf (parse_exe (Some (encode s))) =
+    (negb (s_is64 s) && negb (s_big s) && (s_machine s =? 40) && (N.land (s_flags s) 4278190080 =? 83886080) && (N.land (s_flags s) 1024 =? 1024)) /\
+  is_linux_i686 (parse_exe (Some (encode s))) = (negb (s_is64 s) && negb (s_big s) && (s_machine s =? 3)).
+Proof.
+  intros W. unfold parse_exe. rewrite (encode_header s W). unfold is_linux_armhf, is_linux_i686, elf_of.
+  cbn [capacity encoding machine flags]. destruct (s_is64 s), (s_big s); split; reflexivity.
+Qed.
+Lemma abi_without_probe exe archs : mem s_armv7l archs = false -> mem s_i686 archs = false ->
+  have_compatible_abi exe archs = existsb (fun a => mem a allowed_archs) archs.
+Proof. intros H1 H2. unfold have_compatible_abi. now rewrite H1, H2. Qed.
